@@ -1,6 +1,6 @@
-import Mastverif.Lemmas.Seek
+import Mastverif.Lemmas.CursorFwd
 /-!
-# C10 — cursor and seek navigation (property theorems, partial)
+# C10 — cursor and seek navigation (property theorems; backward direction partial)
 
 The cursor functions are total on every tree, including both empty forms: there is no input
 on which the model (and, by the `cursor` family, the repaired Go code) panics — the three
@@ -10,7 +10,14 @@ descent, then emit from every path entry, deepest first — yields EXACTLY the e
 are not smaller than the probe, ascending, each once, for every tree with strictly ascending
 entries (any shape, height, residency; the probe present or absent, of any layer);
 `C10_seekIter_stop`: a callback that signals done after j entries has seen exactly the first j.
-Proved about cursor positions: the in-node search `lowerBound` returns the index of the
+`C10_min_forward_walk` / `C10_ceil_forward_walk`: a cursor placed at the minimum (resp. at the least
+key not smaller than a probe, present or absent, of any layer) and stepped forward n times is at
+the n-th entry of the sorted list (resp. of its suffix from the probe), and reports "no entry"
+exactly when n reaches the end — on every well-formed tree of any shape and height, and from then
+on it stays off the end.  The same statements for `Max` / `Backward` are checked by the `cursor`
+family (walks with direction changes against an index into the sorted Go map); their model
+proof is the mirror image and is on the work list.
+Also proved about positions: the in-node search `lowerBound` returns the index of the
 first key that is not smaller than the probe (`C10_lowerBound_spec`), and a cursor with an
 empty path reports "no entry" and stays empty under every move (`C10_off_end_is_absorbing`).
 The refinement of Min / Max / Ceil / Forward / Backward to index arithmetic on the sorted entry
@@ -63,11 +70,66 @@ theorem C10_seekIter_stop (root : T) (k fuel j : Nat) (hs : Sorted (toList root)
     (Cursor.seekIter fuel root k).take j = ((toList root).dropWhile (fun e => decide (e.1 < k))).take j := by
   rw [C10_seekIter_spec root k fuel hs hf]
 
+/-- a cursor placed at the minimum and stepped forward n times reads the n-th entry, and reports
+    "no entry" exactly from the end of the list on -/
+theorem C10_min_forward_walk (layer : Nat → Nat) (root : T) (d fuel n : Nat) (hw : WF layer d root)
+    (hne : isEmptyRow root = false) (hf : lvl root < fuel) :
+    Cursor.get (Cursor.forwardN fuel n (Cursor.min fuel [(root, 0)])) = ((toList root).drop n).head? := by
+  have hs := solid_of_WF layer root d hw
+  have hn : root.isNil = false := by cases root <;> simp_all [WF, isNil]
+  obtain ⟨m1, m2, m3⟩ := Cursor.min_spec fuel root hs hf hn hne
+  have hl : ∀ x ∈ Cursor.min fuel [(root, 0)], lvl x.1 ≤ lvl root := by
+    simp only [Cursor.min]
+    exact Cursor.minFrom_lvl (lvl root) fuel root [(root, 0)] (Nat.le_refl _) (by simp)
+  have g : Cursor.Good (lvl root) (Cursor.min fuel [(root, 0)]) := ⟨m2, m3, hl⟩
+  obtain ⟨w1, w2⟩ := Cursor.forwardN_spec (lvl root) fuel hf n _ g
+  rw [Cursor.get_eq_head _ w2.at_, w1, m1]
+
+theorem C10_off_end_exactly (layer : Nat → Nat) (root : T) (d fuel n : Nat) (hw : WF layer d root)
+    (hne : isEmptyRow root = false) (hf : lvl root < fuel) :
+    Cursor.forwardN fuel n (Cursor.min fuel [(root, 0)]) = [] ↔ (toList root).length ≤ n := by
+  have hs := solid_of_WF layer root d hw
+  have hn : root.isNil = false := by cases root <;> simp_all [WF, isNil]
+  obtain ⟨m1, m2, m3⟩ := Cursor.min_spec fuel root hs hf hn hne
+  have hl : ∀ x ∈ Cursor.min fuel [(root, 0)], lvl x.1 ≤ lvl root := by
+    simp only [Cursor.min]
+    exact Cursor.minFrom_lvl (lvl root) fuel root [(root, 0)] (Nat.le_refl _) (by simp)
+  have g : Cursor.Good (lvl root) (Cursor.min fuel [(root, 0)]) := ⟨m2, m3, hl⟩
+  obtain ⟨w1, w2⟩ := Cursor.forwardN_spec (lvl root) fuel hf n _ g
+  rw [m1] at w1
+  constructor
+  · intro he
+    rw [he] at w1
+    simp only [Cursor.out, List.map_nil, List.flatten_nil] at w1
+    exact List.drop_eq_nil_iff.mp w1.symm
+  · intro hle
+    apply Cursor.good_off_end w2
+    rw [w1]; exact List.drop_eq_nil_iff.mpr hle
+
+/-- a cursor placed by `Ceil` at the least key not smaller than the probe (present or absent, of any
+    layer) and stepped forward n times reads the n-th entry of the suffix of the sorted list that
+    starts at the probe; "no entry" exactly from the end on -/
+theorem C10_ceil_forward_walk (layer : Nat → Nat) (root : T) (d fuel n k : Nat) (hw : WF layer d root)
+    (hsrt : Sorted (toList root)) (hf : lvl root < fuel) :
+    Cursor.get (Cursor.forwardN fuel n (Cursor.ceil k fuel [(root, 0)])) =
+      (((toList root).dropWhile (fun e => decide (e.1 < k))).drop n).head? := by
+  have hs := solid_of_WF layer root d hw
+  have g := Cursor.ceil_good k fuel root hs hf
+  obtain ⟨w1, w2⟩ := Cursor.forwardN_spec (lvl root) fuel hf n _ g
+  have hout := Cursor.out_ceil k fuel root 0 [] hf
+  simp only [Cursor.out, List.map_nil, List.flatten_nil, List.append_nil] at hout
+  rw [Cursor.get_eq_head _ w2.at_, w1]
+  simp only [Cursor.out]
+  rw [hout, seekT_spec k root hsrt]
+
 /-- non-vacuity: probe 5 (absent) on a two-level tree -/
 example : Cursor.seekIter 10 (cons false (cons false nil 2 0 (last false nil)) 4 0 (last false (cons false nil 7 0 (last false nil)))) 5 = [(7, 0)] := by
   decide
 
 end Mast
+#print axioms Mast.C10_min_forward_walk
+#print axioms Mast.C10_off_end_exactly
+#print axioms Mast.C10_ceil_forward_walk
 #print axioms Mast.C10_seekIter_spec
 #print axioms Mast.C10_seekIter_stop
 #print axioms Mast.C10_lowerBound_spec
